@@ -232,8 +232,9 @@ def check(ctx):
     # ids
     ic, iat, ist = by_name['ids'][0]
     kinds = {}
+    idt = u(get_kw(ic, 'dtype'))
     for s in stmts_in(f_ds.node.body):
-        if isinstance(s, ast.Assign) and u(s.targets[0]) == 'ids_dtype':
+        if isinstance(s, ast.Assign) and u(s.targets[0]) == idt:
             at = path_atoms(gmd[s])
             for a in at:
                 if a[0] in ('eq', 'in') and f'{idsp}.dtype.kind' in a:
@@ -246,7 +247,7 @@ def check(ctx):
     rep.add('H5', f_ds.site(conv[0] if conv else ist), 'unicode ids are converted to objects only in the unicode branch', okc, expected=f"{idsp} = {idsp}.astype(object) under kind == 'U'", found=[u(c) for c in conv], stmt='unicode ids')
     rs = [s for s in stmts_in(f_ds.node.body) if isinstance(s, ast.Raise)]
     rep.add('H5', f_ds.site(rs[0] if rs else ist), 'any other id type is rejected', len(rs) == 1 and raised_name(rs[0]) == 'ValueError' and rs[0].lineno < ic.lineno, expected='raise ValueError before writing', found=[u(r)[:50] for r in rs], stmt='id reject')
-    rep.add('H5', f_ds.site(ic), 'ids are written from the (converted) id array with the chosen dtype', u(get_kw(ic, 'data')) == idsp and u(get_kw(ic, 'dtype')) == 'ids_dtype', expected=f'create_dataset("ids", data={idsp}, dtype=ids_dtype)',
+    rep.add('H5', f_ds.site(ic), 'ids are written from the (converted) id array with the chosen dtype', u(get_kw(ic, 'data')) == idsp and isinstance(get_kw(ic, 'dtype'), ast.Name), expected=f'create_dataset("ids", data={idsp}, dtype=<chosen dtype>)',
             found=u(ic), stmt='ids write')
     gmi = guard_map(f_init.node)
     idset = [s for s in stmts_in(f_init.node.body) if isinstance(s, ast.Assign) and u(s.targets[0]) == 'self.ids']
@@ -326,15 +327,22 @@ def check(ctx):
     gmc = guard_map(f_cr.node)
     _, gc, sc = f_cr.params()[:3]
     rs = [s for s in stmts_in(f_cr.node.body) if isinstance(s, ast.Raise)]
-    oks = any(raised_name(r) == 'ValueError' and any(a[0] == 'ne' and 'ids.shape' in a and f'(len({sc}),)' in a for a in path_atoms(gmc[r])) for r in rs)
+    ia_pre = [c for c in calls_in(f_cr.node) if u(c.func) == 'cls._init_attrs']
+    ds_pre = [c for c in calls_in(f_cr.node) if u(c.func) == 'cls._init_datasets']
+    idn = u(ds_pre[0].args[2]) if ds_pre and len(ds_pre[0].args) > 2 else 'ids'
+    metan = u(ia_pre[0].args[2]) if ia_pre and len(ia_pre[0].args) > 2 else 'meta'
+    oks = any(raised_name(r) == 'ValueError' and any(a[0] == 'ne' and f'{idn}.shape' in a and f'(len({sc}),)' in a for a in path_atoms(gmc[r])) for r in rs)
     rep.add('H8', f_cr.site(rs[0] if rs else None), 'one id per signature is enforced on write', oks, expected=f'raise ValueError when ids.shape != (len({sc}),)', found=[(u(r)[:40], sorted(path_atoms(gmc[r]))) for r in rs], stmt='id count')
     ia = [c for c in calls_in(f_cr.node) if u(c.func) == 'cls._init_attrs']
     ds = [c for c in calls_in(f_cr.node) if u(c.func) == 'cls._init_datasets']
-    okc = len(ia) == 1 and len(ds) == 1 and [u(a) for a in ia[0].args] == [gc, f'{sc}.kmerspec', 'meta'] and [u(a) for a in ds[0].args[:3]] == [gc, sc, 'ids'] and u(get_kw(ds[0], 'values_kw')) == 'kw'
+    kwn = get_kw(ds[0], 'values_kw') if ds else None
+    kwd = def_value(reaching_def(f_cr.node, kwn.id, next(s for s in f_cr.node.body if any(x is ds[0] for x in ast.walk(s))))) if isinstance(kwn, ast.Name) else kwn
+    okc = len(ia) == 1 and len(ds) == 1 and [u(a) for a in ia[0].args] == [gc, f'{sc}.kmerspec', metan] and [u(a) for a in ds[0].args[:3]] == [gc, sc, idn] \
+        and isinstance(kwd, ast.Call) and u(kwd.func) == 'dict' and {k.arg: u(k.value) for k in kwd.keywords} == {'compression': 'compression', 'compression_opts': 'compression_opts'}
     rep.add('H8', f_cr.site(ia[0] if ia else None), 'attributes (own kmerspec, own metadata) and datasets (own signatures, own ids) are written into the same group', okc, expected='_init_attrs(group, signatures.kmerspec, meta); _init_datasets(group, signatures, ids, values_kw=kw)',
             found=[u(c) for c in ia + ds], stmt='create writes')
-    metas = [s for s in stmts_in(f_cr.node.body) if isinstance(s, ast.Assign) and u(s.targets[0]) == 'meta']
-    idsd = [s for s in stmts_in(f_cr.node.body) if isinstance(s, ast.Assign) and u(s.targets[0]) == 'ids']
+    metas = [s for s in stmts_in(f_cr.node.body) if isinstance(s, ast.Assign) and u(s.targets[0]) == metan]
+    idsd = [s for s in stmts_in(f_cr.node.body) if isinstance(s, ast.Assign) and u(s.targets[0]) == idn]
     isref = ('true', f'isinstance({sc}, ReferenceSignatures)')
     okmeta = any(u(s.value) == f'{sc}.meta' and isref in path_atoms(gmc[s]) for s in metas) and any(u(s.value) == f'np.asarray({sc}.ids)' and isref in path_atoms(gmc[s]) for s in idsd)
     rep.add('H8', f_cr.site(metas[0] if metas else None), 'ids and metadata of an annotated collection are the ones stored', okmeta, expected=f'ids = np.asarray({sc}.ids); meta = {sc}.meta', found=[u(s) for s in metas + idsd], stmt='create sources')
